@@ -35,6 +35,56 @@ def main() -> None:
             single = wire.encode(frames[0]) if len(frames) == 1 else None
             if single is not None and len(single) >= 3 and delimited_jelly_hint(single[:3]):
                 net.fail("misclassified", "single-frame stream classified as delimited", {"name_len": n, "header": list(single[:3])})
+    # (3) the header domain of the property, enumerated: every constrained byte exhaustively, unconstrained bytes over a
+    #     set of interesting values (whitespace and 0x0A neighbours, sign/continuation bits)
+    odd = [0, 1, 8, 9, 10, 11, 12, 13, 32, 126, 127, 128, 129, 138, 255]
+    for b0 in range(256):
+        if 1 <= b0 <= 127:                      # one-byte frame length L = b0, the frame starts with a row
+            for b2 in range(0, max(b0 - 1, 0)):  # first byte of varint(rowlen), rowlen + 2 <= L
+                net.case(("hdr", 1, b0, 0x0A, b2), nontrivial=False)
+                if not delimited_jelly_hint(bytes([b0, 0x0A, b2])):
+                    net.fail("misclassified", "delimited header classified as non-delimited", {"header": [b0, 0x0A, b2], "frame_len": b0, "row_len": b2})
+        else:                                    # empty first frame or multi-byte length: next bytes unconstrained
+            for b1 in odd:
+                for b2 in odd:
+                    net.case(("hdr", 1, b0, b1, b2), nontrivial=False)
+                    if not delimited_jelly_hint(bytes([b0, b1, b2])):
+                        net.fail("misclassified", "delimited header classified as non-delimited", {"header": [b0, b1, b2]})
+    for b1 in range(256):                        # non-delimited: row tag, varint(rowlen) (rowlen >= 2), options tag
+        for b2 in ([0x0A] if b1 < 128 else odd):
+            if b1 in (0, 1):
+                continue
+            net.case(("hdr", 0, 0x0A, b1, b2), nontrivial=False)
+            if delimited_jelly_hint(bytes([0x0A, b1, b2])):
+                net.fail("misclassified", "single-frame header classified as delimited", {"header": [0x0A, b1, b2]})
+    # (4) frames whose size sits on every varint boundary, written delimited and compared with varint(len) ++ payload
+    from pyjelly import jelly
+    from pyjelly.serialize.ioutils import write_delimited, write_single
+    from pyjelly.parse.ioutils import get_options_and_frames
+    sizes = [0, 1, 9, 10, 11, 126, 127, 128, 129, 255, 256, 16382, 16383, 16384, 16385, 16510, 16511, 16512, 32768]
+    if not net.quick:
+        sizes += [2097151, 2097152, 2097153, 2113535]
+    for target in sizes:
+        fr = jelly.RdfStreamFrame()
+        if target:
+            row = fr.rows.add()
+            row.options.physical_type = 1
+            row.options.max_name_table_size = 8
+            row.options.version = 1
+            pad = max(0, target - fr.ByteSize() - 8)
+            row.options.stream_name = "x" * pad
+            while fr.ByteSize() < target:
+                row.options.stream_name += "x"
+        net.case(("size", fr.ByteSize()))
+        out = io.BytesIO(); write_delimited(fr, out)
+        payload = fr.SerializeToString(deterministic=True)
+        want = wire.write_varint(len(payload)) + payload
+        if out.getvalue() != want:
+            net.fail("bad-length-prefix", f"write_delimited of a {len(payload)}-byte frame is not varint(len) ++ payload", {"frame_bytes": len(payload), "prefix_got": list(out.getvalue()[:5]), "prefix_want": list(want[:5])})
+        elif target:
+            k, got = guarded(lambda: get_options_and_frames(io.BytesIO(out.getvalue()))[0].params.delimited)
+            if k == "raise" or got is not True:
+                net.fail("parse-differs", f"a delimited stream with a {len(payload)}-byte first frame does not read back as delimited", {"frame_bytes": len(payload)}, got)
     net.finish("bounded", f"stream names of every length 0..{top-1} (options row length sweeps through 10 and 128) x both framings x frame sizes {{1,250}}; reference-encoder streams with 0..2 leading empty frames",
-               "each case = (options-row length, framing, frame size); distinct by that triple")
+               "each case = (options-row length, framing, frame size), one header of the enumerated header domain, or one frame size on a varint boundary")
 main()
